@@ -425,6 +425,66 @@ def free_once(ctx, rule='C05.free-once'):
     return res
 
 
+def freelist_is_set(ctx, rule='C05.freelist-set'):
+    """"never two of these": the persisted free list must name each page once.  Pending pages are kept per transaction in a Vec, and a page can be freed twice in
+    one transaction (deleting a nested bucket and then its parent walks the committed pages of the nested bucket again), so the function that builds the list
+    for the free-list page has to make it a set: sort, then dedup, after the last element was added"""
+    res = []
+    F = ctx.facts
+    fl = F.adt('Freelist')
+    if not fl:
+        return [unresolved(rule, 'type Freelist')]
+    fields = {f['name']: f['ty'] for f in fl['variants'][0]['fields']}
+    multiset = [n for n, t in fields.items() if 'Vec<u64>' in t]
+    producers = []
+    for fn in F.fns:
+        if fn.kind == 'Closure' or not fn.self_adt or last_seg(fn.self_adt) != 'Freelist' or fn.locals[0]['ty'] != 'std::vec::Vec<u64>':
+            continue
+        _, ra = ctx.du(fn).slice_local(0)
+        if has_field(ra, 'Freelist', 'free_pages') and has_field(ra, 'Freelist', 'pending_pages'):
+            producers.append(fn)
+    f = floor(rule, 'functions of Freelist that build the list of all free and pending page ids', len(producers), 1)
+    if f:
+        return [f]
+    if not multiset:
+        return [ok(rule, 'no field of Freelist can hold a page id twice (fields: %s)' % ', '.join('%s: %s' % kv for kv in sorted(fields.items())), sites=1)]
+    ADD = {'append', 'extend', 'push', 'extend_from_slice', 'insert', 'extend_from_within'}
+    for fn in producers:
+        adds, sorts, dedups = set(), set(), set()
+        for bb in fn.reachable_blocks():
+            t = fn.term(bb)
+            c = callee_of(t) if t['k'] == 'call' else None
+            if not c or not t['args']:
+                continue
+            l = op_local(t['args'][0])
+            if l is None or 'Vec<u64>' not in fn.locals[l]['ty'] and '[u64]' not in fn.locals[l]['ty']:
+                continue
+            nm = last_seg(strip_generics(c['path']))
+            if nm in ADD:
+                adds.add(bb)
+            elif nm.startswith('sort'):
+                sorts.add(bb)
+            elif nm.startswith('dedup'):
+                dedups.add(bb)
+        rets = {bb for bb in fn.reachable_blocks() if fn.term(bb)['k'] == 'return'}
+        starts = set()
+        for a in adds or {0}:
+            starts |= set(fn.succ(a)) if adds else {0}
+        leak = fn.reach_from(list(starts), avoid=dedups) & rets
+        unsorted = set()
+        for a in adds:
+            unsorted |= fn.reach_from(fn.succ(a), avoid=sorts) & dedups
+        if dedups and not leak and not unsorted:
+            res.append(ok(rule, '%s sorts and dedups the list after the last element is added (Freelist.%s can hold duplicates)' % (fn.qual, ','.join(multiset)), sites=1))
+        else:
+            why = 'is never deduplicated' if not dedups else ('can be returned without passing the dedup' if leak else 'is deduplicated before it is sorted')
+            res.append(bad(rule, '%s | persisted free list can name a page twice' % fn.qual,
+                           '%s builds the page-id list for the free-list page from Freelist.%s, which is a Vec and receives a page twice when a nested bucket and then its parent are '
+                           'deleted in one transaction; the list %s, so the committed free-list page names the page twice and the built-in check rejects the file'
+                           % (fn.qual, ','.join(multiset), why), where='%s:%d' % (fn.file, fn.line)))
+    return res
+
+
 def run(ctx, tier):
     results = []
     results += freelist_order(ctx)
@@ -435,6 +495,7 @@ def run(ctx, tier):
     results += page_kinds(ctx)
     results += run_length(ctx)
     results += free_once(ctx)
+    results += freelist_is_set(ctx)
     results += c02.cow_free_set(ctx, rule='C05.cow.free-set')
     import c10, c06
     results += c10.delete_walk_guard(ctx, rule='C05.delete-walk-guard')
